@@ -1054,8 +1054,20 @@ pub fn gen_help_lines(d: &Decl, rng: &mut Rng, reps: usize) -> Vec<HelpCase> {
             }
             t.extend(own);
             let at = rng.range(base, t.len());
-            t.insert(at, if rng.chance(50) { "-h".into() } else { "--help".into() });
-            out.push(HelpCase { line: render_tokens(&t, rng), kind: "help-option", about: About::Path(p.clone()) });
+            // -h on its own, --help, or h inside a cluster of short options (`-vh`, `-hv`: the options v and h) next to a flag the
+            // command declares or a letter it does not
+            let mut flags: Vec<char> = v.fields.iter().filter(|f| f.is_flag()).filter_map(|f| if let FieldKind::Named { short: Some(c), .. } = &f.kind { Some(*c) } else { None }).filter(|c| *c != 'h').collect();
+            flags.push('Z');
+            flags.push('é');
+            let x = *rng.pick(&flags);
+            let (tok, kind) = match rng.below(7) {
+                0 | 1 | 2 => ("-h".to_string(), "help-option"),
+                3 | 4 => ("--help".to_string(), "help-option"),
+                5 => (format!("-{}h", x), "help-option-in-cluster"),
+                _ => (format!("-h{}", x), "help-option-in-cluster"),
+            };
+            t.insert(at, tok);
+            out.push(HelpCase { line: render_tokens(&t, rng), kind, about: About::Path(p.clone()) });
         }
     }
     // option-shaped tokens the command does not declare (`---`, `----`, `---x`, ...: long options by C08's rules, none of them
